@@ -166,7 +166,10 @@ def run_t(cfg, named_items, seed, mutants=6):
         codes = sorted({c for c, _ in e})
         for c in codes:
             rep['rustc_codes'][c] = rep['rustc_codes'].get(c, 0) + 1
-        typing_err = [x for x in e if x[0] in TYPING or (x[0] not in OUTSIDE)]
+        # a method call on a field type that lacks the trait is reported as E0599 "... its trait bounds were not
+        # satisfied": a trait obligation (DW/Syntactic4.lean), not a typing error
+        e_t = [x for x in e if not (x[0] == 'E0599' and 'trait bounds were not satisfied' in x[1])]
+        typing_err = [x for x in e_t if x[0] in TYPING or (x[0] not in OUTSIDE)]
         kind = m['tag']
         bk = rep['by_kind'].setdefault(kind, dict(n=0, model_ok=0, rustc_ok=0))
         bk['n'] += 1
